@@ -532,6 +532,73 @@ func main() {
 		}
 	}
 	rec(maxAtoms)
+	// many tokens: n tokens (strings, every third a pattern), all used by one rule, declared before the rule, after it,
+	// and all but one before and that one after; then one of them (the first, the second, a middle one, the last)
+	// declared a second time with another and with the same value, not declared at all, or given the value of its
+	// neighbour - the verdict and the one-definition-per-terminal bookkeeping must not depend on how many there are
+	sizes := []int{3, 8, 15, 16, 17, 18, 31, 32, 33, 40}
+	if !r.Quick() {
+		sizes = append(sizes, 63, 64, 65, 70, 127, 128, 129)
+	}
+	for _, m := range sizes {
+		name := func(i int) string { return fmt.Sprintf("T%03d", i) }
+		decl := func(i int, val string) string {
+			if i%3 == 2 {
+				return fmt.Sprintf("%s = /%s/", name(i), val)
+			}
+			return fmt.Sprintf("%s = \"%s\"", name(i), val)
+		}
+		val := func(i int) string { return fmt.Sprintf("v%03d", i) }
+		var uses []string
+		for i := 0; i < m; i++ {
+			uses = append(uses, name(i))
+		}
+		rule := "start = " + strings.Join(uses, " ") + " ;"
+		build := func(before []string, after []string) string {
+			return "grammar g\n" + strings.Join(before, "\n") + "\n" + rule + "\n" + strings.Join(after, "\n") + "\n"
+		}
+		var all []string
+		for i := 0; i < m; i++ {
+			all = append(all, decl(i, val(i)))
+		}
+		var texts []string
+		texts = append(texts, build(all, nil), build(nil, all))
+		for _, i := range []int{0, 1, m / 2, m - 1} {
+			var rest []string
+			for j := 0; j < m; j++ {
+				if j != i {
+					rest = append(rest, all[j])
+				}
+			}
+			texts = append(texts,
+				build(rest, []string{all[i]}),                 // declared after its use
+				build(all, []string{decl(i, "other")}),        // a second definition, another value
+				build(all, []string{all[i]}),                  // a second definition, the same value
+				build([]string{all[i]}, append(rest, all[i])), // the second definition far from the first
+				build(rest, nil),                              // never declared
+				build(nil, rest),
+			)
+			k := (i + 1) % m
+			if k != i && k%3 == i%3 {
+				same := append([]string{}, all...)
+				same[k] = decl(k, val(i))
+				texts = append(texts, build(same, nil))
+			}
+			if m >= 3 {
+				k = (i + 3) % m // same kind of definition, the same value: two terminals with one value
+				same := append([]string{}, all...)
+				same[k] = decl(k, val(i))
+				texts = append(texts, build(same, nil), build(nil, same))
+			}
+		}
+		for _, text := range texts {
+			n++
+			if r.MineIdx(n) && !r.Expired() {
+				r.Add("specs_many_tokens", 1)
+				checkText(r, text)
+			}
+		}
+	}
 	// every predefined name expands to its pattern
 	for name := range predefs {
 		if r.MineIdx(len(name)) {
